@@ -24,7 +24,7 @@ MANIFEST = dict(
           "which buffer, which slot was stored / read back, fast-path decisions, chunk lists) are fed to the extracted model."),
     note=("Coq kernel; the footprints are a hand abstraction of the code (validated, not proved); data-race freedom of the "
           "C++ accesses is validated by ThreadSanitizer + differential runs on SAMPLED schedules only (partial); translator "
-          "(50 kernels, group c18); theorems of C17 (pool protocol) and C13 (first batch single) are re-used; atomicity "
+          "(60 kernels, group c18); theorems of C17 (pool protocol) and C13 (first batch single) are re-used; atomicity "
           "reduction of C17; extraction ExtrOcamlBasic; ocaml/c18_driver.ml; harness/c18_shared.cpp + NANO_VERIF hooks "
           "(g_max_threads, g_rng_seed, schedule points, pool events); floating-point re-association across thread counts is "
           "outside the exact-arithmetic reduction theorem (compared within the property's 1e-5)."),
@@ -192,7 +192,7 @@ def run(tier, replay=None):
 
     vlib.handle_coq_failure(r, cres)
     vlib.proof_coverage(r, cres, "make -C coq theories/Properties_C18.vo && coqc theories/Properties_C18.v (Print Assumptions)",
-                        ["tools/translate.py (50 kernels of group c18: per-thread indices and sizes, tune slots, pool fast paths, sum_reduce loop)",
+                        ["tools/translate.py (60 kernels of group c18: per-thread indices and sizes, tune slots, pool fast paths, sum_reduce loop)",
                          "theorems of C17 (pool protocol invariants) and C13 (first batch is a single trial) are imported",
                          "extraction: ExtrOcamlBasic only", "ocaml/c18_driver.ml (parsing of the observation lines)",
                          "harness/c18_shared.cpp + NANO_VERIF hooks in parallel.h/.cpp, random.cpp (add-only)",
